@@ -114,6 +114,21 @@ func (fc *FnCtx) doCall(res ssa.Value, c *ssa.CallCommon, in ssa.Instruction) {
 		setRes(freshRes())
 		return
 	}
+	// a record constructor read from the TypeToRR table: it only allocates, and returns a record of the dynamic type
+	// the table gives the key (decided by the structural obligation UnpackRRWithHeader#table.constructors, which
+	// belongs to every check that contains a function making such a call)
+	if key, ok := tableLookupKey(c.Value); ok && res != nil {
+		fc.e.usesCtorTable = true
+		fc.e.assume("%s: no private type is registered (PrivateHandle) under the code of a standard type, so a constructor read from TypeToRR is the one the package initialiser stored", fc.name)
+		rv := freshRes()
+		if rv.K == KIface && len(rv.C) >= 2 {
+			fc.assumeFreshRefs(rv)
+			fc.assumeHere(fmt.Sprintf("(not (= %s 0))", rv.C[1]))
+			fc.assumeHere(fc.e.typeOfCode(rv.C[0], fc.val(key).S()))
+		}
+		setRes(rv)
+		return
+	}
 	// dynamic call through a function value: user code
 	if fc.con != nil && fc.con.Opts["dyncalls-pure"] != "" {
 		fc.e.assume("%s: calls through function values (the record constructors of the TypeToRR table, the Id generator) only allocate", fc.name)
